@@ -50,6 +50,10 @@ structure Input where
                             -- policy document and genuine envelopes); must not matter
   policy : Nat              -- real verifier: shape of the policy document around the applicable statement (wildcard only,
                             -- scoped statement before / after a wildcard statement of the opposite level, ...); must not matter
+  userMetadata : Nat        -- the caller's VerifyOptions.UserMetadata: 0 = nil, 1 = empty non-nil map, 2 = one pair, 3 = two pairs
+                            -- (pairs every genuine envelope of the harness carries); a skip level is a skip level whatever
+                            -- the caller asks for besides; must not matter
+  pluginConfig : Nat        -- the caller's VerifyOptions.PluginConfig: 0 = nil, 1 = empty non-nil map, 2 = non-empty; must not matter
   deriving Repr, FromJson, ToJson
 
 structure Obs where
